@@ -748,6 +748,15 @@ class ShimQueue:
 
     def put(self, item, block=True, timeout=None):
         oplog('put', CTX.queues.index(self))
+        pub = getattr(CTX, 'published', None)
+        if pub is not None and CTX.baton.current is None:
+            # (C16) identity of the arrays the calling thread hands over, by put number: a later write into one of them while
+            # a consumer may still be reading it is a data race
+            k = pub['count']
+            pub['count'] = k + 1
+            for obj in (item, getattr(item, 'base', None)):
+                if obj is not None and hasattr(obj, 'shape'):
+                    pub['ids'][id(obj)] = (k, obj)
         if self.maxsize and len(self.items) >= self.maxsize:
             raise PipelineStuck("put() on a full queue with no consumer able to run")
         self.items.append(item)
